@@ -182,7 +182,42 @@ def gen_raire(rng, file_p=0.35):
     return {"op": "raire", "rows": rows, "phantom": rng.chance(0.3), "int_cands": rng.chance(0.25)}
 
 
+def gen_options(rng):
+    """entry points / call forms the main stream never uses (OPTIONS_AUDIT.md): records built by CVR(id, ...) and
+    CVR.from_vote(vote, ...) with every argument that holds its default left out (phantom, pool, tally_pool; id=1 and
+    contest_id="AvB" of from_vote), CVR.from_raire without `phantom`, from_raire_file(cvr_file=...)"""
+    if rng.chance(0.6):
+        c = gen_merge(rng)
+        one = rng.chance(0.3)                      # records of the integer id 1 (from_vote's default identifier)
+        first = c["recs"][0]["id"]
+        for r in c["recs"]:
+            if one and r["id"] == first:
+                r["id"] = INT1
+        for r in c["recs"]:
+            if len(r["votes"]) == 1 and not r["pool"] and r["tally_pool"] is None and rng.chance(0.6):
+                r["via"] = "vote_min"
+                if rng.chance(0.4):
+                    r["votes"][0][0] = "AvB"
+            elif rng.chance(0.7):
+                r["via"] = "ctor_min"
+        return c
+    c = gen_raire(rng)
+    c["call"] = "defaults"
+    if c["op"] == "raire" and rng.chance(0.6):
+        c["phantom"] = False
+    return c
+
+
 def gen(rng, n, tier):
+    import hashlib
+    from ..core import Rng
+    opt = Rng(int(hashlib.sha1(("options" + repr(rng.getstate())).encode()).hexdigest()[:15], 16))
+    yield from gen_main(rng, n, tier)
+    for _ in range(max(8, n // 12)):
+        yield gen_options(opt)
+
+
+def gen_main(rng, n, tier):
     for i in range(n):
         if i % 5 < 3:
             yield gen_merge(rng)
@@ -215,19 +250,33 @@ def _tp_back(tp):
 
 
 def canon_cvr(c):
-    return {"id": c.id,
+    return {"id": INT1 if (type(c.id) is int and c.id == 1) else c.id,
             "votes": [[k, [[x, _val(v)] for x, v in d.items()]] for k, d in c.votes.items()],
             "phantom": _flag(c.phantom), "pool": _flag(c.pool), "tally_pool": _tp_back(c.tally_pool)}
+
+
+INT1 = "#int:1"       # the case's (and the model's) name for the INTEGER identifier 1, the default `id` of CVR.from_vote
 
 
 def build_cvr(rec):
     from shangrla.core.Audit import CVR
     votes = {k: dict((x, v) for x, v in d) for k, d in rec["votes"]}
     via = rec.get("via", "ctor")
-    rec = dict(rec, tally_pool=_tp_obj(rec["tally_pool"]))
-    if via == "vote" and len(votes) == 1 and not rec["pool"] and rec["tally_pool"] is None:
+    rec = dict(rec, tally_pool=_tp_obj(rec["tally_pool"]), id=(1 if rec["id"] == INT1 else rec["id"]))
+    if via in ("vote", "vote_min") and len(votes) == 1 and not rec["pool"] and rec["tally_pool"] is None:
         (cid, d), = votes.items()
+        if via == "vote_min":
+            # CVR.from_vote(vote, id=1, contest_id="AvB", phantom=False): every argument that holds its default is left out
+            kw = ({} if (rec["id"] == 1 and type(rec["id"]) is int) else {"id": rec["id"]}) | \
+                 ({} if cid == "AvB" else {"contest_id": cid}) | ({} if rec["phantom"] is False else {"phantom": rec["phantom"]})
+            return CVR.from_vote(d, **kw)
         return CVR.from_vote(d, id=rec["id"], contest_id=cid, phantom=rec["phantom"])
+    if via == "ctor_min":
+        # the constructor with only the arguments that differ from its defaults (phantom=False, pool=False,
+        # tally_pool=None; `votes` left out for a record without votes), the identifier by position
+        kw = ({} if not votes else {"votes": votes}) | ({} if rec["phantom"] is False else {"phantom": rec["phantom"]}) | \
+             ({} if rec["pool"] is False else {"pool": rec["pool"]}) | ({} if rec["tally_pool"] is None else {"tally_pool": rec["tally_pool"]})
+        return CVR(rec["id"], **kw)
     if via == "dict":
         return CVR.from_dict([{"id": rec["id"], "votes": votes, "phantom": rec["phantom"], "pool": rec["pool"],
                                "tally_pool": rec["tally_pool"]}])[0]
@@ -263,7 +312,12 @@ def impl(case):
         if case.get("int_cands"):
             rows = [r[:2] + [int(x) if _is_canon_int(x) else x for x in r[2:]] if i > 0 else r
                     for i, r in enumerate(rows)]
-        out, n = CVR.from_raire(rows, phantom=case["phantom"])
+        if case.get("call") == "defaults" and case["phantom"] is False:
+            out, n = CVR.from_raire(rows)                       # phantom=False is the default
+        elif case.get("call") == "defaults":
+            out, n = CVR.from_raire(raire=rows, phantom=case["phantom"])
+        else:
+            out, n = CVR.from_raire(rows, phantom=case["phantom"])
         return {"st": "ok", "recs": [canon_cvr(c) for c in out], "n": n}
     if op == "raire_file":
         fd, path = tempfile.mkstemp(prefix="verif-c18-", suffix=".csv")
@@ -272,7 +326,7 @@ def impl(case):
                 w = csv.writer(f, delimiter=",", quotechar='"')
                 for r in case["rows"]:
                     w.writerow(r)
-            out, n, uniq = CVR.from_raire_file(path)
+            out, n, uniq = CVR.from_raire_file(cvr_file=path) if case.get("call") == "defaults" else CVR.from_raire_file(path)
         finally:
             os.unlink(path)
         return {"st": "ok", "recs": [canon_cvr(c) for c in out], "n": n, "unique": uniq}
